@@ -10,6 +10,8 @@
 //!   hm.produce S | M n     OptionalMultiPacketEncoder::encode   -> ok | notready
 //!   hm.feed <hex>          append to the read buffer            -> buf <len>
 //!   hm.decode              OptionalMultiPacketDecoder::decode   -> <out> ; left <len>
+//!   hm.run S|M n <hex>...  fresh pair: announce the hint, then per read: append + one decode (stop at Err)
+//!                                                               -> <out> | ... | left <len> / end
 //!   omstatic S|M n <hex>   <OptionalMulti<RespVec> as DecodedPacket>::decode -> <out> ; left <len>
 //!   sizeof                 size_of::<RespIndex>()
 //!
@@ -313,6 +315,31 @@ fn plain_packets(all: &[u8], limit: usize) -> (Vec<(V, usize)>, bool) {
     (out, false)
 }
 
+/// fresh encoder/decoder pair, announce `hint`, then one `decode` per read; stops at the first Err
+fn real_hm_run(multi: bool, n: usize, chunks: &[Vec<u8>]) -> (Vec<HOut>, Option<usize>) {
+    let (mut e, mut d) = new_optional_multi_packet_codec::<Vec<BinSafeStr>, V>();
+    let cmd: Vec<BinSafeStr> = vec![b"PING".to_vec()];
+    let pkt = if multi { OptionalMulti::Multi(vec![cmd; n]) } else { OptionalMulti::Single(cmd) };
+    assert!(e.encode(pkt, |_| {}).is_ok());
+    let mut buf = BytesMut::new();
+    let mut outs = vec![];
+    for c in chunks {
+        buf.extend_from_slice(c);
+        let r = catch_unwind(AssertUnwindSafe(|| d.decode(&mut buf)));
+        match to_hout(r) {
+            HOut::None => {}
+            o @ (HOut::Invalid | HOut::Panic) => { outs.push(o); return (outs, None); }
+            o => outs.push(o),
+        }
+    }
+    (outs, Some(buf.len()))
+}
+fn hm_run_str(r: &(Vec<HOut>, Option<usize>)) -> String {
+    let mut t: Vec<String> = r.0.iter().map(hout_str).collect();
+    t.push(match r.1 { Some(n) => format!("left {}", n), None => "end".into() });
+    t.join(" | ")
+}
+
 struct HmCase {
     enc: OptionalMultiPacketEncoder<Vec<BinSafeStr>>,
     dec: OptionalMultiPacketDecoder<V>,
@@ -496,6 +523,35 @@ fn exec(line: &str, cx: &mut Ctx, s: &mut Streams) {
                     match o { HOut::Single(_) | HOut::Multi(_) => h.delivered = true, HOut::Invalid | HOut::Panic => h.errored = true, HOut::None => {} }
                     s.stats.count("oracle.hm");
                 }
+            }
+        }
+        "hm.run" => {
+            let (multi, n, from) = match (t.get(1).copied(), t.get(2).and_then(|n| n.parse::<usize>().ok())) {
+                (Some("S"), _) => (false, 1usize, 2usize),
+                (Some("M"), Some(n)) if n <= 4096 => (true, n, 3usize),
+                _ => { s.op(line, "bad-op"); return; }
+            };
+            let mut chunks = vec![];
+            for h in &t[from..] { match unhex(h) { Some(b) => chunks.push(b), None => { s.op(line, "bad-op"); return; } } }
+            let r = real_hm_run(multi, n, &chunks);
+            s.op(line, &hm_run_str(&r));
+            if !chunks.is_empty() {
+                let all: Vec<u8> = chunks.concat();
+                // chunk independence
+                let r1 = real_hm_run(multi, n, &[all.clone()]);
+                if r1 != r { fail(s, "hint machine: replies/left-over depend on how the bytes were cut into reads", "", line); }
+                // exactly the first n replies in order
+                let want = if multi { n } else { 1 };
+                let (pk, err) = plain_packets(&all, want);
+                let used = pk.last().map(|p| p.1).unwrap_or(0);
+                let exp: (Vec<HOut>, Option<usize>) = if multi && n == 0 { (vec![HOut::Multi(vec![])], Some(all.len())) }
+                    else if pk.len() == want { let vs: Vec<V> = pk.iter().map(|p| p.0.clone()).collect();
+                        (vec![if multi { HOut::Multi(vs) } else { HOut::Single(vs[0].clone()) }], Some(all.len() - used)) }
+                    else if err { (vec![HOut::Invalid], None) }
+                    else { (vec![], Some(all.len() - used)) };
+                let exp = if r.0.last() == Some(&HOut::Panic) { r.clone() } else { exp };
+                if exp != r { fail(s, "hint machine run: replies differ from the first n packets of the stream", "", line); }
+                s.stats.count("oracle.hm_run");
             }
         }
         "omstatic" => {
@@ -751,6 +807,13 @@ fn generate(args: &Args, s: &mut Streams, cx: &mut Ctx) {
         }
         run(s, cx, "hm.decode".into());
         run(s, cx, "hm.decode".into());
+        // the whole scenario as one `hm.run` (fresh pair), in two chunkings
+        for _ in 0..2 {
+            let ch = g.chunking(&all, &mut s.stats);
+            if ch.is_empty() { continue; }
+            s.stats.count("gen.hm.run");
+            run(s, cx, format!("hm.run {} {}", hint, ch.iter().map(|c| hex(c)).collect::<Vec<_>>().join(" ")));
+        }
         // the stateless variant on the same bytes
         if g.rng.chance(1, 3) { s.stats.count("gen.omstatic"); run(s, cx, format!("omstatic {} {}", hint, hex(&all))); }
     }
